@@ -106,7 +106,12 @@ def minimise(target, path, want_label, seeds_dir, env, hdr, budget_s=90):
 
 def campaign(prop, target, seeds, seconds, workers, seed, report=None, ignore=None, hdr=64, max_len=200000, extra_seed_dirs=()):
     """Runs the campaign; returns dict(stats, samples, violations=[{prop,label,replay,detail}], notes)."""
-    wd = os.path.join(WORK, prop, 'fz_' + target)
+    # one directory per run (two runs of the same check may overlap, e.g. a quick run during a thorough one); stale ones are swept
+    for old in glob.glob(os.path.join(WORK, prop, 'fz_' + target + '*')):
+        pid = old.rsplit('_', 1)[-1]
+        if not (pid.isdigit() and os.path.exists('/proc/' + pid)):
+            shutil.rmtree(old, ignore_errors=True)
+    wd = os.path.join(WORK, prop, 'fz_%s_%d' % (target, os.getpid()))
     shutil.rmtree(wd, ignore_errors=True)
     os.makedirs(os.path.join(wd, 'corpus'))
     os.makedirs(os.path.join(wd, 'art'))
